@@ -78,6 +78,10 @@ func runC14(p *core.Prog, r *core.Report) {
 						if !x.CommaOk {
 							risky = append(risky, "type assertion without comma-ok at "+p.Pos(x.Pos()))
 						}
+					case *ssa.BinOp:
+						if (x.Op == token.EQL || x.Op == token.NEQ) && types.IsInterface(x.X.Type()) && !sx.IsNilConst(x.X) && !sx.IsNilConst(x.Y) {
+							risky = append(risky, "comparison of two interface values at "+p.Pos(x.Pos())+" panics when their dynamic type is not comparable (slice, map, …)")
+						}
 					case ssa.CallInstruction:
 						n := sx.CalleeName(x)
 						if n == "(*sync/atomic.Value).Store" || n == "(*sync/atomic.Value).CompareAndSwap" || n == "(*sync/atomic.Value).Swap" {
@@ -225,6 +229,18 @@ func runC14(p *core.Prog, r *core.Report) {
 				}
 				if isRec {
 					found = true
+					// the pointer published must be to a cell that is fresh for this panic
+					if a, ok := sx.Unspill(v).(*ssa.Alloc); ok || v != nil {
+						al, isAl := v.(*ssa.Alloc)
+						_ = a
+						fresh := isAl && al.Parent() == f
+						if !isAl {
+							if _, isMI := v.(*ssa.MakeInterface); isMI {
+								fresh = true
+							}
+						}
+						r.Check(fresh, "C14-R2", "last-panic slot publishes a cell that is fresh for each panic", p.Pos(in.Pos()), "the address stored is a variable of the recovering closure's own invocation", "the address published is a variable that outlives the panic (declared outside the deferred closure): the next panic on the same worker overwrites it in place while Status() reads it — a data race and possibly a torn value")
+					}
 					r.Check(!strings.Contains(sx.CalleeName(c), "atomic.Value"), "C14-R2", "last-panic slot accepts any dynamic type", p.Pos(in.Pos()), sx.CalleeName(c)+" of a pointer to the recovered value", "atomic.Value.Store panics on the second panic value of a different dynamic type")
 				}
 			})
